@@ -372,6 +372,8 @@ class Resolver:
                 r = get_resolver(cb).ret()
                 if r[0] == 'const':
                     return ('const', r[1], r[2], strip_generics(op['const_def']))
+                if not any(isinstance(x, tuple) and x[0] in ('param', 'unknown', 'phi') for x in walk(r)):
+                    return r
             return ('const', op.get('s'), op['ty'], strip_generics(op['const_def']))
         return ('const', op.get('s'), op['ty'])
 
